@@ -1,18 +1,37 @@
 // c02_vec.h — igris::vector against std::vector, one operation at a time.
-// Included by a TU that has already included ONE definition of igris::vector
-// (igris/container/vector.h or igris/container/std_portable.h; the two redefine the same
-// names, so each lives in a binary of its own) and defined `struct Fam`:
-//   static constexpr const char *name;                  flavour tag used in keys
-//   template <class T> static constexpr bool range_erase  erase(first,last) instantiates
-//   static constexpr bool std_iters                      the (I first, O last) ctor accepts host iterators
+// Compiled twice: against igris/container/vector.h and (with -DC02_PORTABLE) against the igris::vector
+// twin inside igris/container/std_portable.h. The two headers redefine the same names (igris::vector,
+// igris::move, igris::constructor ...), so each lives in a binary of its own; std_portable.h does
+// compile next to the host libstdc++. One TU per element type so that a unit compiles in parallel.
 //
 // Reference: a std::vector<int> of element ids driven by the same operation; after EVERY
 // operation the whole observable state is compared, the lifetime registry of vf::Tracked
 // is consulted, and the number of live Tracked objects is compared with what the model
 // says must be alive (so a missing destruction is attributed to the operation that lost it).
 #pragma once
+#include <cassert> // before vf.h: vf.h defines __assert_fail and must see the libc declaration first
 #include "tracked.h"
 #include "vf.h"
+#ifdef C02_PORTABLE
+#include <igris/container/std_portable.h>
+// erase(first,last) of the twin calls a three-argument igris::move; it only instantiates where that exists
+template <class P> constexpr bool c02_has_move3 = requires(P p) { igris::move(p, p, p); };
+struct Fam
+{
+    static constexpr const char *name = "portable.vector"; // flavour tag used in keys
+    template <class T> static constexpr bool range_erase = c02_has_move3<T *>;
+    static constexpr bool std_iters = false; // igris::distance dispatches on igris' own iterator tags
+};
+#else
+#include <igris/container/vector.h>
+struct Fam
+{
+    static constexpr const char *name = "vector";
+    template <class T> static constexpr bool range_erase = true;
+    static constexpr bool std_iters = true; // the (I first, O last) constructor accepts host iterators
+};
+#endif
+#include <algorithm>
 #include <list>
 #include <stdexcept>
 #include <string>
@@ -732,7 +751,7 @@ namespace c02
     // (a) enumeration: start state (size 0..4) x (capacity state) x op1 x op2, every position of every op
     static const int SPARE[4] = {0, 1, 3, -1}; // -1: grown by push_back alone (whatever capacity that gives)
     static const int ENUM_SLOTS = 192;        // >= number of op instances for size 4
-    static uint64_t enum_count() { return 3ull * 5 * 4 * ENUM_SLOTS; }
+    static uint64_t enum_count() { return 5ull * 4 * ENUM_SLOTS; }
     template <class T> static void enum_run_t(int n, int spare, int slot)
     {
         std::vector<Op> ops1, ops2;
@@ -777,32 +796,24 @@ namespace c02
             vf::sample("enum: %s start size=%d spare=%d op1=%s(%d,%d) then each of %zu second ops", Hist<T>::flav().c_str(), n, spare,
                        KNAME[ops1[slot].kind], ops1[slot].a, ops1[slot].b, ops2.size());
     }
-    static void enum_run(uint64_t idx)
+    template <class T> static void enum_run(uint64_t idx)
     {
         int slot = idx % ENUM_SLOTS;
         idx /= ENUM_SLOTS;
         int spare = SPARE[idx % 4];
         idx /= 4;
-        int n = idx % 5;
-        idx /= 5;
-        if (idx == 0)
-            enum_run_t<Tracked>(n, spare, slot);
-        else if (idx == 1)
-            enum_run_t<std::string>(n, spare, slot);
-        else
-            enum_run_t<int>(n, spare, slot);
+        enum_run_t<T>((int)(idx % 5), spare, slot);
     }
-    VF_SUITE(enumerate, enum_count, enum_run)
 
     // (b) seeded random histories of 60 operations
-    static uint64_t rand_count() { return vf::thorough() ? 300000 : 3000; }
+    static uint64_t rand_count() { return vf::thorough() ? 100000 : 1000; } // per element type
     template <class T> static void rand_run_t(uint64_t idx)
     {
-        vf::Rng r(vf::seed(), 0xC02, idx);
+        vf::Rng r(vf::seed(), 0xC02 + sizeof(T) + El<T>::tracked, idx);
         Hist<T> h;
         h.start();
         std::vector<Op> ops, pick;
-        uint64_t hh = vf::mix(idx % 3, 0xC02);
+        uint64_t hh = vf::hash_bytes(Hist<T>::flav().data(), Hist<T>::flav().size());
         bool nontrivial = false;
         for (int step = 0; step < 60; step++)
         {
@@ -836,17 +847,6 @@ namespace c02
         if (vf::want_sample() && idx % 101 == 7)
             vf::sample("random: %s %.400s", Hist<T>::flav().c_str(), h.trace.c_str());
     }
-    static void rand_run(uint64_t idx)
-    {
-        if (idx % 3 == 0)
-            rand_run_t<Tracked>(idx);
-        else if (idx % 3 == 1)
-            rand_run_t<std::string>(idx);
-        else
-            rand_run_t<int>(idx);
-    }
-    VF_SUITE(random, rand_count, rand_run)
-
     static inline void require_vector_clauses()
     {
         using V = igris::vector<int>;
@@ -861,3 +861,7 @@ namespace c02
             vf::require("at() throws std::out_of_range iff index >= size()");
     }
 } // namespace c02
+
+#define C02_VEC_SUITES(T, tag)                                                   \
+    VF_SUITE(enumerate_##tag, c02::enum_count, c02::enum_run<T>)                 \
+    VF_SUITE(random_##tag, c02::rand_count, c02::rand_run_t<T>)
